@@ -68,19 +68,29 @@ type encoded struct {
 	bytes   []byte
 }
 
+var gzWriters = map[int]*gzip.Writer{}
+
 func gzipEncode(rng *rand.Rand, data []byte) encoded {
 	members := 1
 	if rng.IntN(4) == 0 {
 		members = 2 + rng.IntN(3)
 	}
 	level := []int{gzip.DefaultCompression, gzip.NoCompression, gzip.BestSpeed, 2, 5, 6, gzip.BestCompression, gzip.HuffmanOnly}[rng.IntN(8)]
+	if len(data) > 8192 { // the lazy-matching levels crawl on long runs; keep big bodies on the fast ones
+		level = []int{gzip.NoCompression, gzip.BestSpeed, 2, gzip.HuffmanOnly}[rng.IntN(4)]
+	}
 	var buf bytes.Buffer
 	parts := split(rng, data, members)
 	for _, p := range parts {
-		w, err := gzip.NewWriterLevel(&buf, level)
-		if err != nil {
-			panic(err)
+		w := gzWriters[level]
+		if w == nil {
+			var err error
+			if w, err = gzip.NewWriterLevel(&buf, level); err != nil {
+				panic(err)
+			}
+			gzWriters[level] = w
 		}
+		w.Reset(&buf)
 		w.Write(p)
 		w.Close()
 	}
@@ -115,7 +125,16 @@ func zstdEncode(rng *rand.Rand, data []byte, maxWindow int64) encoded {
 	if rng.IntN(3) == 0 {
 		frames = 2 + rng.IntN(3)
 	}
-	level := zstd.EncoderLevel(1 + rng.IntN(4))
+	// SpeedBestCompression / SpeedBetterCompression reset very large tables per frame: sample them rarely
+	level := zstd.SpeedFastest
+	switch k := rng.IntN(200); {
+	case k == 0 && len(data) <= 8192:
+		level = zstd.SpeedBestCompression
+	case k <= 2 && len(data) <= 8192:
+		level = zstd.SpeedBetterCompression
+	case k < 20:
+		level = zstd.SpeedDefault
+	}
 	parts := split(rng, data, frames)
 	var out []byte
 	e := encoded{Coding: "zstd", Members: len(parts)}
@@ -125,33 +144,20 @@ func zstdEncode(rng *rand.Rand, data []byte, maxWindow int64) encoded {
 		for int64(win) > maxWindow && win > 1024 {
 			win >>= 1
 		}
-		opts := []zstd.EOption{zstd.WithEncoderLevel(level), zstd.WithWindowSize(win), zstd.WithEncoderConcurrency(1),
-			zstd.WithEncoderCRC(rng.IntN(2) == 0), zstd.WithZeroFrames(true)}
+		crc := rng.IntN(2) == 0
 		mode := rng.IntN(3)
 		var fr []byte
 		switch mode {
 		case 0: // one-shot, single segment: declares content size, no window
-			enc, err := zstd.NewWriter(nil, append(opts, zstd.WithSingleSegment(true))...)
-			if err != nil {
-				panic(err)
-			}
-			fr = enc.EncodeAll(p, nil)
-			enc.Close()
+			fr = encoder(level, win, true, crc).EncodeAll(p, nil)
 			shapes = append(shapes, "single")
 		case 1: // one-shot, windowed: declares window (+ content size when >= 256)
-			enc, err := zstd.NewWriter(nil, append(opts, zstd.WithSingleSegment(false))...)
-			if err != nil {
-				panic(err)
-			}
-			fr = enc.EncodeAll(p, nil)
-			enc.Close()
+			fr = encoder(level, win, false, crc).EncodeAll(p, nil)
 			shapes = append(shapes, "windowed")
 		default: // streaming writer: no content size once the input spans blocks
 			var buf bytes.Buffer
-			enc, err := zstd.NewWriter(&buf, append(opts, zstd.WithSingleSegment(false))...)
-			if err != nil {
-				panic(err)
-			}
+			enc := encoder(level, win, false, crc)
+			enc.Reset(&buf)
 			step := 1 + rng.IntN(4096)
 			for off := 0; off < len(p); off += step {
 				end := off + step
@@ -161,6 +167,7 @@ func zstdEncode(rng *rand.Rand, data []byte, maxWindow int64) encoded {
 				enc.Write(p[off:end])
 			}
 			enc.Close()
+			enc.Reset(nil)
 			fr = buf.Bytes()
 			shapes = append(shapes, "stream")
 		}
@@ -172,11 +179,40 @@ func zstdEncode(rng *rand.Rand, data []byte, maxWindow int64) encoded {
 		if h.SingleSegment {
 			fi.Window = h.FrameContentSize
 		}
+		// 1 KiB is the format's minimum window and what a decoder reserves even for a smaller
+		// single-segment frame; a decoded-size cap below it is a memory bound no zstd frame fits.
+		if fi.Window < 1024 {
+			fi.Window = 1024
+		}
 		e.Frames = append(e.Frames, fi)
 		out = append(out, fr...)
 	}
 	e.bytes = out
 	e.Desc = fmt.Sprintf("zstd level=%d frames=%s", level, strings.Join(shapes, "+"))
+	return e
+}
+
+type encKey struct {
+	level  zstd.EncoderLevel
+	win    int
+	single bool
+	crc    bool
+}
+
+var encoders = map[encKey]*zstd.Encoder{}
+
+// encoder returns a cached harness-side encoder (construction is the expensive part).
+func encoder(level zstd.EncoderLevel, win int, single, crc bool) *zstd.Encoder {
+	k := encKey{level, win, single, crc}
+	if e, ok := encoders[k]; ok {
+		return e
+	}
+	e, err := zstd.NewWriter(nil, zstd.WithEncoderLevel(level), zstd.WithWindowSize(win), zstd.WithEncoderConcurrency(1),
+		zstd.WithEncoderCRC(crc), zstd.WithZeroFrames(true), zstd.WithSingleSegment(single))
+	if err != nil {
+		panic(err)
+	}
+	encoders[k] = e
 	return e
 }
 
@@ -386,7 +422,10 @@ func contains(l []int, v int) bool {
 }
 
 func armA(r *mon.Run, rng *rand.Rand, idx int) {
-	sizes := []int{0, 1, 17, 100, 1000, 5000, 20000, 70000, 300000}
+	sizes := []int{0, 1, 17, 100, 1000, 1500, 3000, 5000, 8000, 20000}
+	if rng.IntN(25) == 0 {
+		sizes = []int{70000, 300000}
+	}
 	if r.Thorough() && rng.IntN(40) == 0 {
 		sizes = []int{1 << 20, 3 << 20, 8 << 20}
 	}
@@ -555,7 +594,7 @@ func armA(r *mon.Run, rng *rand.Rand, idx int) {
 	if exp.Accept {
 		r.Class("A:accept:" + exp.Why)
 		if !accepted {
-			r.Violation(fmt.Sprintf("http:refused-in-cap:%s:%s:status=%d", coding, exp.Why, rec.Code),
+			r.Violation(fmt.Sprintf("http:refused-in-cap:%s:%s", coding, exp.Why),
 				"a body whose raw and decoded sizes are within every configured cap was refused", w)
 		}
 		return
@@ -591,7 +630,10 @@ type caseB struct {
 }
 
 func armB(r *mon.Run, rng *rand.Rand, idx int) {
-	n := []int{0, 1, 50, 1000, 5000, 40000}[rng.IntN(6)]
+	n := []int{0, 1, 50, 1000, 2500, 5000}[rng.IntN(6)]
+	if rng.IntN(25) == 0 {
+		n = 40000
+	}
 	if r.Thorough() && rng.IntN(50) == 0 {
 		n = 2 << 20
 	}
@@ -884,8 +926,8 @@ func main() {
 		"B:depth:0", "B:depth:4", "B:over-limit", "B:in-limit", "B:in-limit:stacked>=2", "C:bomb:gzip", "C:bomb:zstd", "C:bounded-allocation")
 
 	armC(r)
-	nA := r.N(6000, 150000)
-	nB := r.N(4000, 100000)
+	nA := r.N(2500, 60000)
+	nB := r.N(2000, 40000)
 	rngA := r.Rand(18, 1)
 	for i := 0; i < nA; i++ {
 		armA(r, rngA, i)
